@@ -242,6 +242,26 @@ theorem importfrom_no_own_parens (a s : Loc) (hin : posLt s.endLineno s.endCol a
 comparing columns alone would accept it -/
 example : importFromNameOk 1 ⟨3, 0, 3, 2⟩ ⟨1, 0, 4, 2⟩ = false ∧ importFromNameOk 1 ⟨2, 0, 2, 6⟩ ⟨1, 0, 2, 6⟩ = true := by decide
 
+/-- **Undoing the wrapper indentation of `parse__match_cases` is exact, for every tree**: whichever lines are indented
+(multi-line strings leave some lines as they are), start and end of every node come back to the fragment's own positions —
+also for a node that starts on an un-indented line and ends on an indented one, or the other way round. -/
+theorem match_cases_undo_indent (k : Int) (ind : List Int) (t : PTree) :
+    mapTree (undoIndent k ind) (mapTree (indentEmbed k ind) t) = t := by
+  apply mapTree_comp_id
+  intro p
+  obtain ⟨a, b, c, d⟩ := p
+  simp only [undoIndent, indentEmbed]
+  have e1 : a + k - k = a := by omega
+  have e2 : c + k - k = c := by omega
+  rw [e1, e2]
+  congr 1
+  · split <;> omega
+  · split <;> omega
+
+/-- a node starting on a string's tail line (3, not indented) and ending on an ordinary line (4, indented) -/
+example : undoIndent 2 [1, 2, 4] (indentEmbed 2 [1, 2, 4] ⟨3, 7, 4, 9⟩) = ⟨3, 7, 4, 9⟩
+    ∧ indentEmbed 2 [1, 2, 4] ⟨3, 7, 4, 9⟩ = ⟨5, 7, 6, 10⟩ := by decide
+
 /-! ## location repair of an undelimited sequence (`_fix_undelimited_seq_parsed_delimited`, model `Pfst/SeqFix.lean`) -/
 
 section SeqFix
